@@ -45,7 +45,13 @@ var unit = ev.Unit[Case]{
 		if gen.OneIn(t, 15, "longseq") {
 			maxOps = 24 // the same container touched many times
 		}
-		ops := g.Seq(t, doc, ref.Opts{Neg: neg}, 0, maxOps, 2)
+		var ops []ref.Op
+		if gen.OneIn(t, 20, "alias") {
+			// walk into a nested value, duplicate it, edit deep inside one side, test both
+			ops = g.Alias(t, doc, ref.Opts{Neg: neg})
+		} else {
+			ops = g.Seq(t, doc, ref.Opts{Neg: neg}, 0, maxOps, 2)
+		}
 		esc := rapid.Bool().Draw(t, "spell")
 		dt, pt := gen.Texts(t, doc, ref.OpsTree(ops), esc, "sp")
 		return Case{Doc: dt, Patch: pt, Neg: neg, NoEsc: gen.OneIn(t, 4, "noesc")}
